@@ -1473,6 +1473,9 @@ class CanUnprotect(BaseSecurityContext):
             raise DecodeError("Protected data uses reserved fields")
 
         pivsz = firstbyte & COMPRESSION_BITS_N
+        if pivsz > 5:
+            # RFC 8613 Section 6.1: lengths 6 and 7 are reserved
+            raise DecodeError("Partial IV length uses reserved values")
         if pivsz:
             if len(tail) < pivsz:
                 raise DecodeError("Partial IV announced but not present")
